@@ -260,29 +260,35 @@ def stage_fidelity(wd, V, rng, tier):
 
 
 def stage_slow(wd, V, rng, tier):
-    """C02 over SSH: a consumer that does not read for 3.5 s (pipe, client and SSH window fill up, the server blocks), then
-    reads everything: every line exactly once, in order, exit status 0"""
+    """C02 over SSH, a consumer that does not read for several seconds and then reads everything: every line exactly once,
+    in order, exit status 0.  Two sizes: with much data the pipe and the SSH window fill up and the server blocks in the
+    middle of the files; with little data everything fits into the window, the server is done at once, gives up on the
+    close handshake after 5 s and closes the connection while the client has not printed a line yet."""
     runs = 0
     cl = Cluster(wd, 2)
     try:
-        d = os.path.join(cl.wd, "slow")
-        os.makedirs(d, exist_ok=True)
-        os.chmod(d, 0o755)
-        src = {}
-        for name, n, nl in (("s1.log", 9000, True), ("s2.log", 2500, False)):
-            lines = [("%s line %06d %s" % (name, i, "=" * (i % 90))).encode() for i in range(n)]
-            src[name] = lines
-            open(os.path.join(d, name), "wb").write(b"\n".join(lines) + (b"\n" if nl else b""))
-            os.chmod(os.path.join(d, name), 0o644)
         hosts = [s["host"] for s in cl.servers]
-        for stall in ([3.5] if tier == "quick" else [3.5, 0.0, 7.0]):
-            rc, out, err = cl.run("dcat", os.path.join(d, "*.log"), timeout=180, stall=stall)
-            runs += 1
-            bad = check_remote_records(out or b"", hosts, src)
-            if rc != 0:
-                bad.append("client exit status %s" % rc)
-            if bad:
-                V.violation("SSH, consumer stalling %.1f s: %s" % (stall, bad[0]), {"bad": bad[:6], "stderr": (err or b"")[-300:].decode(errors="replace")})
+        plans = [("big", (("s1.log", 9000, True), ("s2.log", 2500, False)), [3.5] if tier == "quick" else [3.5, 0.0, 7.0]),
+                 ("small", (("t1.log", 3000, True), ("t2.log", 700, False)), [6.5] if tier == "quick" else [6.5, 9.0])]
+        for label, files, stalls in plans:
+            d = os.path.join(cl.wd, "slow-" + label)
+            os.makedirs(d, exist_ok=True)
+            os.chmod(d, 0o755)
+            src = {}
+            for name, n, nl in files:
+                lines = [("%s line %06d %s" % (name, i, "=" * (i % 90))).encode() for i in range(n)]
+                src[name] = lines
+                open(os.path.join(d, name), "wb").write(b"\n".join(lines) + (b"\n" if nl else b""))
+                os.chmod(os.path.join(d, name), 0o644)
+            for stall in stalls:
+                rc, out, err = cl.run("dcat", os.path.join(d, "*.log"), timeout=180, stall=stall)
+                runs += 1
+                bad = check_remote_records(out or b"", hosts, src)
+                if rc != 0:
+                    bad.append("client exit status %s" % rc)
+                if bad:
+                    V.violation("SSH, %s files, consumer stalling %.1f s: %s" % (label, stall, bad[0]),
+                                {"bad": bad[:6], "stderr": (err or b"")[-300:].decode(errors="replace")})
     finally:
         cl.stop()
     return runs
